@@ -60,6 +60,34 @@ def run_seq(case, acc):
                 detail=dict(step=i, vars=gm.svars, missing=sorted(ref - got),
                             extra=sorted(got - ref)))
             return
+    # change of ownership, edited in place in the same automaton: the first
+    # environment variable is handed to the component, then the first
+    # component variable to the environment
+    for src, dst in (('env', 'sys'), ('sys', 'env')):
+        if not aut.varlist[src]:
+            continue
+        v = aut.varlist[src][0]
+        aut.varlist[src].remove(v)
+        aut.varlist[dst].append(v)
+        c2 = dict(case)
+        c2['env'] = [[n, h] for n in aut.varlist['env']
+                     for m, h in case['env'] + case['sys'] if m == n]
+        c2['sys'] = [[n, h] for n in aut.varlist['sys']
+                     for m, h in case['env'] + case['sys'] if m == n]
+        gm2 = fam.GameModel(aut, c2)
+        P = [gm2.state_table(u) for u in aut.win['<>[]']]
+        G = [gm2.state_table(u) for u in aut.win['[]<>']]
+        z, _, _ = gr1.solve_streett_game(aut)
+        got = gm2.state_table(z)
+        ref = gm2.winning(P, G, rabin=False)
+        acc.ev(dict(seq=case, own=src), 0 < len(ref) < len(gm2.states))
+        if got != ref:
+            acc.violation(
+                'region_mismatch_after_ownership_change', case,
+                detail=dict(moved=v, to=dst, vars=gm2.svars,
+                            missing=sorted(ref - got),
+                            extra=sorted(got - ref)))
+            return
 
 
 def run_case(case, acc):
